@@ -37,8 +37,13 @@ DEFAULTS = {"keep_unary": False, "keep_unary_in_individuals": False, "keep_input
 
 
 def opt_key(opts):
-    """Input class of an option combination: the options that are ON, in a fixed order."""
-    return "+".join(o for o in OPTS if opts[o]) or "none"
+    """Input class of an option combination: the topology options that are ON, in a fixed
+    order; filter_nodes / filter_sites are part of the class only together with
+    reduce_to_site_topology (the only place where they interact with the topology)."""
+    on = [o for o in OPTS[:4] if opts[o]]
+    if opts["reduce_to_site_topology"]:
+        on += [o for o in ("filter_nodes", "filter_sites") if opts[o]]
+    return "+".join(on) or "default"
 
 
 # ----------------------------------------------------------------------------------
@@ -441,7 +446,11 @@ def oracle_simplify(case, obs):
         fail("idempotence" + why, "simplify(simplify(ts)) differs in %s" % (obs["idem_diff"][:6],))
     elif obs["idem_node_map_identity"] is False:
         fail("idempotence-node-map", "second simplify renumbers nodes")
-    return F
+    # keep reports short: the first two failing checks, plus the checks that have recorded
+    # findings (so that an unrelated failure is never hidden behind a known one)
+    tail = [f for f in F if f[0].startswith(("unreferenced-node", "idempotence"))]
+    head = [f for f in F if f not in tail]
+    return head[:2] + tail
 
 
 # ----------------------------------------------------------------------------------
@@ -628,7 +637,7 @@ class Simplify(Family):
 
     def describe(self, case, obs):
         return {"num_samples": len(case["samples"]),
-                "options": opt_key(case["opts"]),
+                "options": "+".join(o for o in OPTS if case["opts"][o]) or "none",
                 "nonsample_chosen": any(not (case["desc"]["nodes"][s][0] & 1) for s in case["samples"]),
                 "out_edges": min(len(obs.get("out", {}).get("edges", [])), 12),
                 "trees": obs.get("num_trees")}
